@@ -21,6 +21,12 @@ THEOREMS = [
     "VK.C01_topM_no_tiebreak_no_boundary_tie",
     "VK.C01_plurality",
     "VK.C01_borda",
+    "VK.C01_toptwo_one_winner",
+    "VK.C01_alaska_exactly_m2",
+    "VK.C01_random_dictator_exactly_m",
+    "VK.C01_boosted_exactly_m",
+    "VK.C01_condoborda_exactly_m",
+    "VK.C06_dominating_sets_elects_top",
 ]
 RULE = ("cases = rule (18 classes) x random valid profile (1-6 candidates incl. zero-vote ones, 0-10 ballots, partial "
         "ballots, tied positions where the rule allows them, unit/int/rational weights; score ballots within limits for "
